@@ -151,7 +151,7 @@ func checkCase(t reporter, s *caseSpec, tables []ceremony.VerifC17Shard) {
 		t.Fatalf("case:\n%s\nfirst result:\n%s\nTWO EVALUATIONS OF THE SAME CHAIN DATA DISAGREE:\n%s", s.describe(), first.Canon, strings.Join(diffs, "\n"))
 	}
 
-	if v := statementOnOutcome(s, &first); v != "" {
+	if v := statementOnOutcome(s, &first, tables); v != "" {
 		t.Fatalf("case:\n%s\nresult:\n%s\nSTATEMENT BROKEN: %s", s.describe(), first.Canon, v)
 	}
 	s.record(&first, tables)
@@ -197,6 +197,7 @@ func (s *caseSpec) record(o *outcome, tables []ceremony.VerifC17Shard) {
 	if len(fliplessLongAnswers(s, tables)) > 0 {
 		evid.Count("shard.zero-flips-with-long-answers-on-chain")
 	}
+	s.recordEvidence(tables)
 	evid.Count(fmt.Sprintf("shards.%d", s.ShardsNum))
 	evid.Count(fmt.Sprintf("consensus.v%d", s.Version))
 	switch {
@@ -284,6 +285,53 @@ func (s *caseSpec) record(o *outcome, tables []ceremony.VerifC17Shard) {
 		evid.NonTrivial(s.describe())
 		evid.Sample("epoch", map[string]interface{}{"identities": len(s.Idents), "epoch": s.Epoch, "consensus": s.Version, "shards": s.ShardsNum, "messages": len(s.Msgs),
 			"promoted": promoted, "failed": failed, "kept": kept, "delegatedCandidates": delegated, "longestDelegationChain": longest, "blocks": len(s.Split1), "restartAfter": s.RestartK})
+	}
+}
+
+// recordEvidence counts the shapes in which approval by the own shard's evidence matters.
+func (s *caseSpec) recordEvidence(tables []ceremony.VerifC17Shard) {
+	appr := approvalModel(s, tables)
+	if s.ShardsNum >= 2 && appr.ShardsWithMaps >= 2 {
+		evid.Count("evidence.senders-in-2+-shards")
+	}
+	hasShort, hasLong := map[int]bool{}, map[int]bool{}
+	for _, m := range s.Msgs {
+		if m.Type == types.SubmitShortAnswersTx {
+			hasShort[m.From] = true
+		} else if m.Type == types.SubmitLongAnswersTx {
+			hasLong[m.From] = true
+		}
+	}
+	answeredNotApproved, foreignBit, pooled, noOwnMaps := false, false, false, false
+	for _, sh := range tables {
+		for _, a := range sh.Candidates {
+			i := s.byAddr[a]
+			if !hasShort[i] || !hasLong[i] || appr.Approved[i] || len(s.Idents[i].Flips) < int(s.Idents[i].Required) {
+				continue
+			}
+			answeredNotApproved = true
+			if appr.OwnMaps[i] == 0 {
+				noOwnMaps = true
+			}
+			if appr.ForeignBitSet[i] {
+				foreignBit = true
+			}
+			if appr.PooledApproves[i] {
+				pooled = true
+			}
+		}
+	}
+	if answeredNotApproved {
+		evid.Count("evidence.answered-but-not-approved-by-own-shard")
+	}
+	if noOwnMaps {
+		evid.Count("evidence.answered-in-shard-without-any-map")
+	}
+	if foreignBit {
+		evid.Count("evidence.answered-not-approved-but-bit-set-in-foreign-shard-map")
+	}
+	if pooled {
+		evid.Count("evidence.answered-not-approved-but-maps-of-all-shards-pooled-would-approve")
 	}
 }
 
@@ -507,7 +555,7 @@ func drawLayout(t *rapid.T) *caseSpec {
 	return s
 }
 
-func drawParticipation(t *rapid.T, s *caseSpec) []participation {
+func drawParticipation(t *rapid.T, s *caseSpec, tables []ceremony.VerifC17Shard) []participation {
 	parts := make([]participation, len(s.Idents))
 	for i := range parts {
 		p := &parts[i]
@@ -518,6 +566,52 @@ func drawParticipation(t *rapid.T, s *caseSpec) []participation {
 		p.LongBits = pick(t, "longBits", 85, 5, 5, 3, 2)
 		p.Evidence = pick(t, "sendsEvidence", 85, 15) == 0
 		p.EvNoise = []int{0, 5, 30}[pick(t, "evidenceNoise", 70, 20, 10)]
+	}
+	// Several shards: in a good part of the cases one shard's own evidence does not approve candidates that
+	// did answer (nobody of the shard sends a map, or a few answer hashes came late), while the other
+	// shards' maps are plentiful and clean - approval has to be decided by the shard's own maps only.
+	var populated []int
+	for si, sh := range tables {
+		if len(sh.Candidates) > 0 {
+			populated = append(populated, si)
+		}
+	}
+	if len(populated) >= 2 && pick(t, "quietShard", 5, 5) == 1 {
+		quiet := populated[rapid.IntRange(0, len(populated)-1).Draw(t, "quietShardIdx")]
+		mode := pick(t, "quietMode", 5, 3, 2) // nobody sends evidence / one sender, late hashes / only late hashes
+		lateLeft := rapid.IntRange(1, 3).Draw(t, "lateHashes")
+		sendersLeft := 1
+		for si, sh := range tables {
+			for _, a := range sh.Candidates {
+				p := &parts[s.byAddr[a]]
+				if si != quiet {
+					if p.Class != partAbsent {
+						p.Evidence, p.EvNoise = true, 0
+					}
+					continue
+				}
+				switch mode {
+				case 0:
+					p.Evidence = false
+				case 1, 2:
+					if mode == 1 {
+						if p.Evidence && canSendEvidence(s, &s.Idents[s.byAddr[a]]) && p.Class != partAbsent {
+							if sendersLeft == 0 {
+								p.Evidence = false
+							} else {
+								sendersLeft--
+							}
+						}
+					}
+					p.EvNoise = 0
+					if lateLeft > 0 && p.Class == partFull && rapid.Bool().Draw(t, "lateHash") {
+						p.Class, p.Skill = partNoHash, 100
+						p.ShortBits, p.LongBits = bitsWellFormed, bitsWellFormed
+						lateLeft--
+					}
+				}
+			}
+		}
 	}
 	return parts
 }
@@ -641,7 +735,7 @@ func TestEpochReproducible(t *testing.T) {
 		evid.Eval()
 		s := drawLayout(t)
 		tables := lotteryTables(s)
-		parts := drawParticipation(t, s)
+		parts := drawParticipation(t, s, tables)
 		s.Msgs = buildMessages(s, tables, parts)
 		drawArrival(t, s)
 		drawReset(t, s, tables)
